@@ -25,7 +25,8 @@ EXPLANATION = (
     ' (R14) the manifest parsers drop no entry (shared with C14.R7).'
     " (R18) the marker abandonment window is never derived: call sites of collect / _load_inflight_protection omit it, name DEFAULT_INFLIGHT_TIMEOUT_MS or pass on a same-default parameter; (R19) no handler on the collector's read path (metadata resolution, manifest readers, backends) completes normally."
     ' (R20) recovery orders versions as integers; (R21) the metadata decoder reads every written key strictly; R18 also requires DEFAULT_INFLIGHT_TIMEOUT_MS to evaluate at compile time (literals, module constants, pure module helpers, timedelta) to an integer of milliseconds >= the default grace period; R3 reads the keep-set union through locals, a.union(b, c) and in-place update.'
-    ' (R23) numbers (grace 0, cutoffs, mtimes) are never truth-tested; (R24) durations use total_seconds(); R2 reads the marker target through helpers and requires the legacy name to drop exactly the marker suffix; R18 evaluates the window at compile time (named constants, pure helpers, timedelta).')
+    ' (R23) numbers (grace 0, cutoffs, mtimes) are never truth-tested; (R24) durations use total_seconds(); R2 reads the marker target through helpers and requires the legacy name to drop exactly the marker suffix; R18 evaluates the window at compile time (named constants, pure helpers, timedelta).'
+    ' R1: a reach set is only ever EXTENDED inside the snapshot / manifest loops (|=, update, add) - an assignment there replaces what earlier snapshots contributed; R4 finds the canonical base by role (a fresh realpath(self.base_path), not a stored attribute).')
 NOT_DECIDED = ("histories x location spellings at run time; that orphans are in fact removed; grace-period arithmetic")
 
 GC = "garbage_collector.GarbageCollector"
